@@ -181,8 +181,11 @@ Fixpoint dedupr_from (seen : list ref) (l : list ref) : list ref :=
   end.
 Definition body_inputs (selected : list utxo) : list ref := dedupr_from [] (map ref_of selected).
 
-(* ---------- histories: registration calls interleaved with builds ---------- *)
-Inductive item := Op (o : bop) | Build (need : bool) (sels : list selector).
+(* ---------- histories: registration calls interleaved with builds, on a chain that moves ----------
+   SetCtx c' : between two calls the chain context starts to answer c' (UTxOs were spent elsewhere, new ones
+   arrived).  The builder queries context.utxos(address) anew inside every build(): the pool of a build is
+   assembled from the answer current AT THAT BUILD. *)
+Inductive item := Op (o : bop) | Build (need : bool) (sels : list selector) | SetCtx (c : ctx).
 
 Fixpoint run (c : ctx) (st : bstate) (its : list item) : bstate * list bres :=
   match its with
@@ -191,4 +194,14 @@ Fixpoint run (c : ctx) (st : bstate) (its : list item) : bstate * list bres :=
   | Build need sels :: r =>
       let b := build c sels need st in
       let '(st', outs) := run c (state_after st b) r in (st', b :: outs)
+  | SetCtx c' :: r => run c' st r
+  end.
+
+(* the context in force and the builder state after a history *)
+Fixpoint reach (c : ctx) (st : bstate) (its : list item) : ctx * bstate :=
+  match its with
+  | [] => (c, st)
+  | Op o :: r => reach c (bstep st o) r
+  | Build need sels :: r => reach c (state_after st (build c sels need st)) r
+  | SetCtx c' :: r => reach c' st r
   end.
